@@ -19,7 +19,7 @@ RULE = ('case = (1..3 memories with random images, incl. one mapped near 2^32 an
         'per history. distinct_nontrivial = distinct (history hash, fault script, k, port-4 wire hash).')
 ASSUMPTIONS = ['device memory protocol as in the firmware: read reply <=24 data bytes, write 5-byte header',
                'duplicates are drained before a conflicting request is issued (a stale reply may legitimately carry old data)']
-REQUIRED = ['mon.writes_with_a_progress_callback', 'mon.empty_writes_with_a_progress_callback', 'mon.tester_reads', 'mon.tester_writes', 'mon.tester_writes_crossing_a_256_byte_boundary_with_a_remainder', 'mon.tester_reads_over_a_corrupted_byte',
+REQUIRED = ['mon.deck_reads_failing_without_a_failure_callback', 'mon.writes_with_a_progress_callback', 'mon.empty_writes_with_a_progress_callback', 'mon.tester_reads', 'mon.tester_writes', 'mon.tester_writes_crossing_a_256_byte_boundary_with_a_remainder', 'mon.tester_reads_over_a_corrupted_byte',
             'mon.reads_completed', 'mon.writes_completed', 'mon.failed_notifications', 'mon.images_compared',
             'mon.chunk_requests', 'mon.probe_after_history', 'mon.link_drop_runs', 'mon.error_status_runs',
             'mon.requests_issued_while_no_link_is_open', 'mon.deck_memory_requests_issued_from_a_completion_callback',
@@ -546,8 +546,15 @@ def run_deck(desc, ctx):
         # a failed read is notified once and leaves nothing behind
         fails = []
         h.fail_next_read = True
+        with_cb = rnd.random() < 0.5        # the failure callback is optional
+        if not with_cb:
+            ctx.count('mon.deck_reads_failing_without_a_failure_callback')
         try:
-            decks[0].read(4, 8, lambda a, d: fails.append(('ok', a)), lambda a: fails.append(('failed', a)))
+            if with_cb:
+                decks[0].read(4, 8, lambda a, d: fails.append(('ok', a)), lambda a: fails.append(('failed', a)))
+            else:
+                decks[0].read(4, 8, lambda a, d: fails.append(('ok', a)))
+                fails.append(('failed', 4))          # (nobody to tell)
             h.pump()
             after = []
             decks[1].read(0, 4, lambda a, d: after.append(bytes(d)))
